@@ -86,8 +86,15 @@ func (*Deb) ConventionalFileName(info *nfpm.Info) string {
 		version += "-" + info.Release
 	}
 
+	// the architecture as the control file states it: for other platforms than
+	// linux it carries the platform in front (darwin-amd64)
+	arch := info.Arch
+	if info.Platform != "" && info.Platform != "linux" {
+		arch = info.Platform + "-" + arch
+	}
+
 	// package_version_architecture.package-type
-	return fmt.Sprintf("%s_%s_%s.deb", info.Name, version, info.Arch)
+	return fmt.Sprintf("%s_%s_%s.deb", info.Name, version, arch)
 }
 
 // ConventionalExtension returns the file name conventionally used for Deb packages
